@@ -1,3 +1,5 @@
+pub mod c01;
+pub mod c02;
 pub mod c12;
 pub mod selftest;
 
@@ -5,6 +7,8 @@ use crate::common::{Ctx, Out};
 
 pub fn run(ctx: &Ctx, out: &mut Out) -> bool {
     match ctx.prop.as_str() {
+        "C01" => c01::run(ctx, out),
+        "C02" => c02::run(ctx, out),
         "C12" => c12::run(ctx, out),
         "SELFTEST" => selftest::run(ctx, out),
         _ => return false,
